@@ -449,8 +449,8 @@ M("C10", "method-pattern-allows-space", "connection.py",
 M("C10", "method-checked-with-match-not-search", "connection.py",
   "        match = _CONTAINS_CONTROL_CHAR_RE.search(method)", "        match = _CONTAINS_CONTROL_CHAR_RE.match(method)", rule="C10-R1")
 M("C10", "raw-url-to-make-request", "connectionpool.py",
-  "        if url.startswith(\"/\"):\n            url = to_str(_encode_target(url))\n        else:\n            url = to_str(parsed_url.url)",
-  "        if not url.startswith(\"/\"):\n            url = to_str(parsed_url.url)", rule="C10-R2")
+  "        if url.startswith(\"/\"):\n            url = to_str(_encode_target(url))\n        else:",
+  "        if not url.startswith(\"/\"):", rule="C10-R2")
 M("C10", "space-in-path-chars", "util/url.py",
   "_PATH_CHARS = _USERINFO_CHARS | {\"@\", \"/\"}", "_PATH_CHARS = _USERINFO_CHARS | {\"@\", \"/\", \" \"}", rule="C10-R2")
 M("C10", "encoder-keeps-non-ascii", "util/url.py",
